@@ -83,9 +83,7 @@ def h_limit() -> Union[bool, str]:
     env.max_recursion_depth = L
     if mode == "nondet":
         tape.install(tape.ChoiceTape())
-    q = _Q.get(mode)
-    if q is None:
-        q = _Q[mode] = env.compile(P.get("query", "$..*"))
+    q = env.compile(P.get("query", "$..*"))  # compiled on every path: no state may leak from one symbolic path to the next
     try:
         nodes = q.find(doc)
         raised = False
@@ -141,9 +139,7 @@ def h_cyclic() -> Union[bool, str]:
     env.max_recursion_depth = L
     if mode == "nondet":
         tape.install(tape.ChoiceTape())
-    q = _Q.get(mode)
-    if q is None:
-        q = _Q[mode] = env.compile("$..*")
+    q = env.compile("$..*")
     count = 0
     try:
         for _n in q.finditer(doc):
@@ -153,6 +149,41 @@ def h_cyclic() -> Union[bool, str]:
     except JSONPathRecursionError:
         return True
     return "cyclic data traversed without JSONPathRecursionError (limit %r, %d nodes)" % (L, count)
+
+
+def h_reuse() -> Union[bool, str]:
+    """The bound is a property of the data, not of what the compiled query saw before: after applications that raised, were
+    abandoned half-way or completed, the same compiled query still completes on data within the limit and raises beyond it."""
+    mode = P["mode"]
+    L = fresh(int, "limit")
+    assume(1 <= L <= 6)
+    env = DET if mode == "det" else NONDET
+    env.max_recursion_depth = L
+    if mode == "nondet":
+        tape.install(tape.ChoiceTape())
+    q = env.compile("$..*")
+    docs = [spine(d, "mixed", "first", "scalar", narrow=True) for d in ((1, 2, 3, 5) if mode == "det" else (1, 2))]
+    for si in range(P["steps"]):
+        doc = docs[hcommon.sym_choice("doc%d" % si, len(docs))]
+        dd = depth_of(doc)
+        how = hcommon.sym_choice("how%d" % si, 3)
+        try:
+            if how == 0:
+                q.find(doc)
+                raised = False
+            elif how == 1:
+                q.find_one(doc)
+                continue
+            else:
+                it = iter(q.finditer(doc))
+                next(it, None)
+                next(it, None)
+                continue
+        except JSONPathRecursionError:
+            raised = True
+        if raised != (dd > L):
+            return "step %d: nesting %d, limit %r, raised=%r (compiled query reused)" % (si, dd, L, raised)
+    return True
 
 
 def h_reach() -> bool:
@@ -204,6 +235,11 @@ def obligations(tier: str):
         for kind in ("self_list", "self_dict", "two_cycle", "three_cycle", "diamond_cycle"):
             ml = (10 if tier == "quick" else 16) if mode == "det" else (3 if tier == "quick" else 4)
             obls.append({"id": "cyclic.%s.%s" % (mode, kind), "func": "h_cyclic", "params": {"mode": mode, "kind": kind, "maxlimit": ml}, "timeout": t})
+    for mode in ("det", "nondet"):
+        for steps in ((2,) if tier == "quick" else (2, 3)):
+            if mode == "nondet" and (steps > 2 or tier == "quick"):
+                continue
+            obls.append({"id": "reuse.%s.len%d" % (mode, steps), "func": "h_reuse", "params": {"mode": mode, "steps": steps}, "timeout": t})
     obls.append({"id": "reach", "func": "h_reach", "timeout": 60, "expect": "refuted"})
     return obls
 
